@@ -28,6 +28,14 @@ def rev_parity(crate):
         for bb, t, fn in b.iter_calls():
             if fn and fn["name"] in ("eq", "ne", "partial_cmp", "cmp") and len(t["args"]) == 2:
                 calls.append((bb, t, fn, b.e_call(t)))
+        adaptors = [fn["name"] for bb, t, fn in b.iter_calls()
+                    if fn and fn["name"] in ("all", "any", "find", "find_map", "map", "for_each", "fold", "try_fold", "position", "zip", "eq", "cmp")
+                    and any(isinstance(a, tuple) and a[:1] == ("closure",) for a in b.e_call(t)[3])]
+        if not calls and adaptors:
+            # word-wise comparison written with iterator adaptors and closures instead of an index loop: the per-word
+            # kernel shape is not extracted from closures
+            res.append((b, b.key, "undecided", "comparison expressed through iterator adaptors (%s): kernel shape not decided" % ", ".join(sorted(set(adaptors)))))
+            continue
         if not calls:
             res.append((b, b.key, "violation", "comparison without a loop delegates to no comparison"))
             continue
@@ -41,9 +49,19 @@ def rev_parity(crate):
             elif a0 == other_p and a1 == self_p:
                 swapped = True
             else:
+                # comparison of raw word slices / word iterators instead of the vectors: lexicographic order (or slice
+                # equality) is the numeric one only when both sides have the same number of words. Equal, explicit word
+                # counts (`split_at(.., common).0` on both sides, `[..n]` with the same n): the surplus-word handling around
+                # it is not extracted -> no verdict. Different counts: the shorter operand is not zero-extended.
+                la, lb = _slice_count(a0), _slice_count(a1)
+                if la is not None and lb is not None and la == lb:
+                    res.append((b, "%s|%s" % (b.key, show(e)[:60]), "undecided",
+                                "compares equally long word slices (%s words each); the handling of the surplus words is not extracted" % show(la)[:60]))
+                    continue
                 res.append((b, "%s|%s" % (b.key, show(e)[:60]), "violation",
-                            "delegates to %s(%s, %s): operands are not (self, other) in either order"
-                            % (fn["name"], show(a0), show(a1))))
+                            "delegates to %s(%s, %s): operands are not (self, other) in either order%s"
+                            % (fn["name"], show(a0), show(a1),
+                               "" if la is None and lb is None else " - word slices of different lengths compare lexicographically, not numerically")))
                 continue
             # how is the result used?
             reversed_ = False
@@ -80,6 +98,23 @@ def rev_parity(crate):
                 else:
                     res.append((b, key, "pass", "ordering delegated%s" % (" with swapped operands and reversed result" if swapped else "")))
     return res
+
+
+def _slice_count(e):
+    """number of words of a slice / slice-iterator operand when it is explicit: x[..n] -> n, split_at(x, n).0 -> n"""
+    for _ in range(6):
+        if is_call(e, ("rev", "iter", "into_iter", "copied", "cloned", "as_ref", "deref", "borrow")) and len(e[3]) == 1:
+            e = e[3][0]
+            continue
+        break
+    if e[0] == "field" and e[2] == "0" and is_call(e[1], "split_at") and len(e[1][3]) == 2:
+        return e[1][3][1]
+    if is_call(e, "index") and len(e[3]) == 2 and e[3][1][0] == "agg" and e[3][1][1] == "RangeTo" and e[3][1][3]:
+        return e[3][1][3][0]
+    if is_call(e, "index") and len(e[3]) == 2 and e[3][1][0] == "agg" and e[3][1][1] == "Range" and len(e[3][1][3]) == 2 \
+            and e[3][1][3][0] == ("int", 0):
+        return e[3][1][3][1]
+    return None
 
 
 def _same_call(a, b):
@@ -348,7 +383,43 @@ def hash_taint(crate):
             res.append((b, "%s|mode-independent" % b.key, "violation" if sw else "pass",
                         "branches on the storage variant around the hasher" if sw else "no branch on the storage variant"))
         if sinks == 0:
-            res.append((b, "%s|sinks" % b.key, "violation", "Hash impl feeds nothing to the hasher"))
+            # the hasher may be fed from a closure handed to an iterator adaptor (`.for_each(|w| w.hash(state))`): what
+            # reaches it is then an element of the adapted iterator - taint the whole iterator expression, closure bodies
+            # included (a closure's own parameter stands for the element and adds nothing)
+            fed = []
+            for cb in crate.closures_of.get(b.path, []):
+                for bb, t, fn in cb.iter_calls():
+                    tr = (fn or {}).get("trait", "")
+                    if tr.endswith("hash::Hash") or tr.endswith("hash::Hasher"):
+                        fed.append(cb)
+            if not fed:
+                res.append((b, "%s|sinks" % b.key, "violation", "Hash impl feeds nothing to the hasher"))
+            else:
+                done = False
+                for bb, t, fn in b.iter_calls():
+                    e = b.e_call(t)
+                    if not (is_call(e) and any(isinstance(a, tuple) and a[:1] == ("closure",) and any(a[1] == cb.path for cb in fed) for a in e[3])):
+                        continue
+                    parts = [e[3][0]] if e[3] else []
+                    for x in walk(e):
+                        if isinstance(x, tuple) and x[:1] == ("closure",):
+                            sc = storage.subst_closure(crate, x)
+                            if sc is not None:
+                                parts.append(sc[0])
+                    tv = "const"
+                    for p_ in parts:
+                        t2 = _taint(p_)
+                        tv = "len" if "len" in (tv, t2) else ("data" if "data" in (tv, t2) else "const")
+                    key = "%s|sink via %s" % (b.key, e[1])
+                    sinks += 1
+                    done = True
+                    if tv == "len":
+                        res.append((b, key, "violation", "the iterator feeding the hasher `%s` depends on the length (outside `len - "
+                                    "leading_zeros`), which == ignores" % show(e)[:120]))
+                    else:
+                        res.append((b, key, "pass", "the hasher is fed from `%s`, which is %s-dependent" % (show(e)[:80], tv)))
+                if not done:
+                    res.append((b, "%s|sinks" % b.key, "undecided", "the hasher is fed from a closure whose call site was not identified"))
     # dedupe
     out, seen = [], set()
     for r in res:
